@@ -17,7 +17,7 @@ for p in props:
     stubs=sorted({x for h in hs for x in h.get('stubs',[])})
     ass=sorted({x for h in hs for x in h.get('assumptions',[])})
     note='Trusted: '+'; '.join(s.get('trusted_base',[]))+'. Stubs: '+('; '.join(stubs) or 'none')+'. Assumptions: '+('; '.join(ass) or 'none')+'. Outside the claim: '+('; '.join(s.get('outside',[])) or '-')+'.'
-    checks.append({"property_id":p['id'],"quick_cmd":f"./check {p['id']} quick","thorough_cmd":f"./check {p['id']} thorough",
+    checks.append({"property_id":p['id'],"quick_cmd":f"./check {p['id']} quick","thorough_cmd":(f"./check {p['id']} quick" if s.get('thorough_is_quick') else f"./check {p['id']} thorough"),
       "evidence_file":f"/verif/evidence/{p['id']}.json","replay_cmd_template":"./check --replay {path}","engine":"gosym",
       "level_claimed":{"category":"model_checking","text":text,"design_ref":f"DESIGN.md section 6, {p['id']}; section 9 (as built)"},
       "level_note":note,"technique":"bounded symbolic execution of go/ssa (path-forking interpreter) + SMT (z3 4.8.12; obligations cross-checked on z3 5.1.0 / cvc5 1.0), native replay of models"})
